@@ -82,7 +82,7 @@ func (e *SpecEnv) eval(x ast.Expr) Val {
 			s, _, _, _ := strconv.UnquoteChar(x.Value[1:len(x.Value)-1], '\'')
 			return Val{T: fmt.Sprint(int(s)), Ty: types.Typ[types.UntypedRune]}
 		case token.FLOAT:
-			return Val{T: vc.floatConst(x.Value), Ty: types.Typ[types.Float64]}
+			return Val{T: vc.floatLit(constant.MakeFromLiteral(x.Value, token.FLOAT, 0)), Ty: types.Typ[types.Float64]}
 		}
 		return e.fail("literal %s", x.Value)
 	case *ast.Ident:
@@ -171,10 +171,8 @@ func (e *SpecEnv) ident(x *ast.Ident) Val {
 	if strings.HasPrefix(x.Name, "ghost_") {
 		return Val{T: vc.get(e.cur, vc.ghostVar(strings.TrimPrefix(x.Name, "ghost_"))), Ty: types.Typ[types.Int]}
 	}
-	if vc.con != nil {
-		if _, ok := vc.con.Ghosts[x.Name]; ok {
-			return Val{T: vc.get(e.cur, vc.ghostVar(x.Name)), Ty: types.Typ[types.Int]}
-		}
+	if vc.eng.cs.GhostNames[x.Name] {
+		return Val{T: vc.get(e.cur, vc.ghostVar(x.Name)), Ty: types.Typ[types.Int]}
 	}
 	if pk := e.pkg(); pk != nil {
 		if obj := pk.Scope().Lookup(x.Name); obj != nil {
@@ -205,7 +203,7 @@ func (e *SpecEnv) constObj(c *types.Const) Val {
 		if isInteger(c.Type()) {
 			return Val{T: smtInt(constant.ToInt(c.Val()).ExactString()), Ty: c.Type()}
 		}
-		return Val{T: vc.floatConst(c.Val().ExactString()), Ty: c.Type()}
+		return Val{T: vc.floatLit(c.Val()), Ty: c.Type()}
 	}
 	return e.fail("constant %s", c.Name())
 }
@@ -472,6 +470,10 @@ func (e *SpecEnv) binary(x *ast.BinaryExpr) Val {
 	case token.MUL:
 		return Val{T: "(* " + a.T + " " + b.T + ")", Ty: ty}
 	case token.QUO:
+		if ty != nil && isFloat(ty) {
+			vc.decl("fun:f64_div", "(declare-fun f64_div (F64 F64) F64)")
+			return Val{T: "(f64_div " + a.T + " " + b.T + ")", Ty: ty}
+		}
 		return Val{T: "(tdiv " + a.T + " " + b.T + ")", Ty: ty}
 	case token.REM:
 		return Val{T: "(trem " + a.T + " " + b.T + ")", Ty: ty}
@@ -603,6 +605,11 @@ func (e *SpecEnv) call(x *ast.CallExpr) Val {
 				return e.fail("typeis: unknown type")
 			}
 			return Val{T: "(= (i.tag " + v.T + ") " + vc.typeID(t) + ")", Ty: boolT}
+		case "same":
+			// bitwise identity (SMT equality), also for floats
+			a, b := e.materialize(e.eval(x.Args[0])), e.materialize(e.eval(x.Args[1]))
+			a, b = e.coerceNil(a, b)
+			return Val{T: smtEq(a.T, b.T), Ty: boolT}
 		case "arr":
 			v := e.eval(x.Args[0])
 			return Val{T: "(s.arr " + v.T + ")", Ty: types.Typ[types.UnsafePointer]}
@@ -666,8 +673,9 @@ func (e *SpecEnv) call(x *ast.CallExpr) Val {
 		// conversion?
 		if t := e.typeExpr(id); t != nil && len(x.Args) == 1 {
 			v := e.eval(x.Args[0])
-			if isInteger(t) {
-				return Val{T: v.T, Ty: t}
+			if isFloat(t) && v.Ty != nil && (isInteger(v.Ty) || v.Ty == types.Typ[types.UntypedInt]) {
+				vc.decl("fun:i2f", "(declare-fun i2f (Int) F64)")
+				return Val{T: "(i2f " + v.T + ")", Ty: t}
 			}
 			return Val{T: v.T, Ty: t}
 		}
@@ -930,10 +938,21 @@ func (e *SpecEnv) extCall(x *ast.CallExpr) Val {
 		return e.fail("ext: name must be pkg.Func")
 	}
 	var fobj *types.Func
+	parts := strings.Split(name, ".")
 	for _, p := range vc.eng.allPkgs() {
-		if p.Name() == name[:dot] {
-			if f, ok := p.Scope().Lookup(name[dot+1:]).(*types.Func); ok {
+		if p.Name() != parts[0] {
+			continue
+		}
+		if len(parts) == 2 {
+			if f, ok := p.Scope().Lookup(parts[1]).(*types.Func); ok {
 				fobj = f
+			}
+		} else if len(parts) == 3 {
+			if tn, ok := p.Scope().Lookup(parts[1]).(*types.TypeName); ok {
+				o, _, _ := types.LookupFieldOrMethod(tn.Type(), false, p, parts[2])
+				if f, ok := o.(*types.Func); ok {
+					fobj = f
+				}
 			}
 		}
 	}
@@ -953,7 +972,7 @@ func (e *SpecEnv) extCall(x *ast.CallExpr) Val {
 		sorts = append(sorts, s)
 		terms = append(terms, v.T)
 	}
-	fname := "ext_" + sanitize(name[:dot]+"_"+name[dot+1:])
+	fname := "ext_" + sanitize(strings.Join(parts, "_"))
 	if sig.Variadic() {
 		fname += fmt.Sprintf("_v%d", len(terms)-(sig.Params().Len()-1))
 	}
